@@ -110,6 +110,16 @@ def run(ctx):
                 if out[0] == 'ok':
                     violations.append({'input': short, 'what': 'a file without a property was accepted', 'signature': 'empty-accepted'})
                 continue
+            # by construction (independent of the implementation's own verdict on the member)
+            if inp['invalid_kind'] in ('duplicate-key', 'unknown-key'):
+                what = 'a duplicated' if inp['invalid_kind'] == 'duplicate-key' else 'an unknown'
+                if out[0] == 'ok':
+                    violations.append({'input': short, 'what': f'a file whose member {inp["invalid_member"]} carries {what} annotation key was accepted',
+                                       'signature': inp['invalid_kind'] + '-accepted'})
+                    continue
+                if singles[inp['invalid_member']][0] == 'ok':
+                    violations.append({'input': short, 'what': f'a property with {what} annotation key is accepted on its own', 'signature': inp['invalid_kind'] + '-accepted'})
+                    continue
             firstbad = next((i for i, s in enumerate(singles) if s[0] != 'ok'), None)
             if firstbad is None:
                 want = ('ok', '(spec ' + ' '.join(s[1] for s in singles) + ')')
